@@ -40,6 +40,12 @@ type Ctl struct {
 	Events, ScanStarts                                      int
 	// abstract schema of the tables (for Open lines)
 	Abs map[string]TableAbs
+	// cluster: per leader ("@leader.N") the entries it has pushed through its
+	// follower bookkeeping and whom it included; OnLeaderEntry is called (under
+	// the controller lock) for each
+	LeaderEntries map[string]int
+	OnLeaderEntry func(leader string, off [2]int64, data []byte, included []common.FollowerID)
+	OnLeaderJoin  func(leader string, f common.FollowerID, table string, off, earliest [2]int64)
 	// HoldScan[table]: park the next scan of the table right after it has taken
 	// its file store and memstore copy (one shot)
 	HoldScan map[string]bool
@@ -75,6 +81,7 @@ func (c *Ctl) ResetScenario() {
 	c.sigs = map[string][]int{}
 	c.holdStep = map[string]bool{}
 	c.HoldScan = map[string]bool{}
+	c.LeaderEntries = map[string]int{}
 	c.ResetIncarnation()
 }
 
@@ -152,6 +159,32 @@ func (c *Ctl) Hook(ev string, kv ...interface{}) {
 		return
 	}
 	table, _ := kv[0].(string)
+	switch ev {
+	case "fol.timer":
+		// followers wait 30 s / 5 s for their tables before they start following
+		if t, ok := kv[1].(*time.Timer); ok {
+			t.Reset(30 * time.Millisecond)
+		}
+		return
+	case "ldr.entry":
+		c.mu.Lock()
+		c.LeaderEntries[table]++
+		if c.OnLeaderEntry != nil {
+			inc := append([]common.FollowerID(nil), kv[3].([]common.FollowerID)...)
+			c.OnLeaderEntry(table, offKey(kv[1].(wal.Offset)), kv[2].([]byte), inc)
+		}
+		c.cond.Broadcast()
+		c.mu.Unlock()
+		return
+	case "ldr.joined":
+		c.mu.Lock()
+		if c.OnLeaderJoin != nil {
+			c.OnLeaderJoin(table, kv[1].(common.FollowerID), kv[2].(string), offKey(kv[3].(wal.Offset)), offKey(kv[4].(wal.Offset)))
+		}
+		c.cond.Broadcast()
+		c.mu.Unlock()
+		return
+	}
 	if c.OnHook != nil {
 		c.OnHook(ev, table)
 	}
